@@ -3,6 +3,7 @@
 package crypto
 
 import (
+	"bytes"
 	"crypto/rand"
 	"crypto/sha256"
 	"encoding/binary"
@@ -165,21 +166,26 @@ func (s *SessionKey) Decrypt(ciphertext []byte) ([]byte, error) {
 	var nonce [NonceSize]byte
 	copy(nonce[:], ciphertext[:NonceSize])
 
-	// Verify nonce is in expected range (optional, helps detect replay/reorder)
+	// The receive state is checked and advanced under the lock, and only after
+	// the AEAD tag has been verified, so that a rejected (forged, reflected or
+	// replayed) message never changes what is accepted afterwards.
 	s.mu.Lock()
+	defer s.mu.Unlock()
+
+	// The direction prefix must be the one the other end sends with. Without
+	// this check a message reflected back to its sender would authenticate,
+	// because both directions share the same key.
 	expectedNonce := s.buildRecvNonce()
-	// Allow some slack for out-of-order delivery (up to 1024 messages ahead)
+	if !bytes.Equal(nonce[:4], expectedNonce[:4]) {
+		return nil, fmt.Errorf("nonce direction mismatch")
+	}
+
+	// Reject replayed or reordered messages: the counter must not be lower
+	// than the next expected one.
 	nonceValue := binary.BigEndian.Uint64(nonce[4:])
-	expectedValue := binary.BigEndian.Uint64(expectedNonce[4:])
-	if nonceValue < expectedValue {
-		s.mu.Unlock()
-		return nil, fmt.Errorf("nonce too old: received %d, expected >= %d", nonceValue, expectedValue)
+	if nonceValue < s.recvNonce {
+		return nil, fmt.Errorf("nonce too old: received %d, expected >= %d", nonceValue, s.recvNonce)
 	}
-	// Update expected nonce if this one is higher
-	if nonceValue >= s.recvNonce {
-		s.recvNonce = nonceValue + 1
-	}
-	s.mu.Unlock()
 
 	aead, err := chacha20poly1305.New(s.key[:])
 	if err != nil {
@@ -190,6 +196,9 @@ func (s *SessionKey) Decrypt(ciphertext []byte) ([]byte, error) {
 	if err != nil {
 		return nil, fmt.Errorf("decrypt: %w", err)
 	}
+
+	// Authenticated: advance the expected counter past this message.
+	s.recvNonce = nonceValue + 1
 
 	return plaintext, nil
 }
